@@ -23,6 +23,24 @@ typedef unsigned __int128 u128;
 #endif
 u8 area[ARENA] __attribute__((aligned(ARENA)));   /* alignments tested for placement are <= ARENA/2 */
 u64 vpx_pthread_self(void) { return 1; }
+#ifdef PTRHOOKS
+/* unit built with ptrhooks: every ptrtoint/inttoptr of the translated code goes through these. The arena is given a symbolic
+   address BASE (64-byte aligned, anywhere in the address space where BASE+2^40 does not wrap): integers in [BASE,BASE+ARENA)
+   are addresses inside the arena, everything else is converted as is (and faults in cbmc if dereferenced). */
+u64 BASE;
+static int in_area(u8* p) {
+#ifdef VP_NATIVE
+  return p >= area && p < area + ARENA;
+#else
+  return __CPROVER_POINTER_OBJECT(p) == __CPROVER_POINTER_OBJECT(area);
+#endif
+}
+u64 vp_p2i(u8* p) { return in_area(p) ? BASE + (u64)(p - area) : (u64)p; }
+u8* vp_i2p(u64 x) { return (x >= BASE && x - BASE < ARENA) ? area + (x - BASE) : (u8*)x; }
+#define ADDR(p) vp_p2i((u8*)(p))
+#else
+#define ADDR(p) ((u64)(p))
+#endif
 
 u64 req_size, req_align;          /* what the harness asked the entry point for (alignment after the max(64,.) of callers) */
 int n_mlo, mlo_null, n_sbr, n_small, small_null; u64 a_asz; u8* the_lmb; u64 the_idx; u64 sbr_idx; u8* sbr_ptr;
@@ -80,9 +98,9 @@ static void check_large_result(u8* r, u64 size, u64 alignment) {
     if (mlo_null) { VP_ASSERT(r == 0, "object returned although the backend failed"); VP_ASSERT(n_sbr == 0, "back reference set although the backend failed"); }
     else {
       VP_ASSERT(r != 0, "NULL although the backend delivered a block (leak)");
-      VP_ASSERT(((u64)r & (alignment - 1)) == 0, "large object not aligned as requested");
-      VP_ASSERT(r >= the_lmb + HDRS, "large object overlaps the block header");
-      VP_ASSERT((u64)(r - the_lmb) <= a_asz && size <= a_asz - (u64)(r - the_lmb), "large object does not fit in its block");
+      VP_ASSERT((ADDR(r) & (alignment - 1)) == 0, "large object not aligned as requested");
+      VP_ASSERT(ADDR(r) >= ADDR(the_lmb) + HDRS, "large object overlaps the block header");
+      VP_ASSERT(ADDR(r) - ADDR(the_lmb) <= a_asz && size <= a_asz - (ADDR(r) - ADDR(the_lmb)), "large object does not fit in its block");
       VP_ASSERT(vp_hdr_block(r) == the_lmb && vp_hdr_idx(r) == the_idx, "LargeObjectHdr does not point back to its block / back reference");
       VP_ASSERT(n_sbr == 1 && sbr_idx == the_idx && sbr_ptr == r - 16, "back reference not set to the object header");
       VP_ASSERT(vp_lmb_objsize(the_lmb) == size, "objectSize not recorded");
@@ -93,6 +111,9 @@ static void check_large_result(u8* r, u64 size, u64 alignment) {
 
 int main(void) {
   vp_set_initialized();
+#ifdef PTRHOOKS
+  BASE = vp_nd(); __CPROVER_assume(BASE % 64 == 0 && BASE >= (1ull << 20) && BASE < (1ull << 62));
+#endif
   u64 size = vp_nd(), lg = vp_nd();
 #ifdef SIZE_LT
   __CPROVER_assume(size < SIZE_LT);
